@@ -195,6 +195,12 @@ pub(crate) struct WorkerHandleServer {
 }
 
 impl WorkerHandleServer {
+    /// the worker behind this handle still listens for stop messages
+    #[cfg(actix_net_verif)]
+    pub(crate) fn verif_live(&self) -> bool {
+        !self.stop_tx.is_closed()
+    }
+
     pub(crate) fn stop(&self, graceful: bool) -> oneshot::Receiver<bool> {
         let (tx, rx) = oneshot::channel();
         let _ = self.stop_tx.send(Stop { graceful, tx });
